@@ -286,6 +286,8 @@ func newPoolServer(s *poolScn) *poolServer {
 	return srv
 }
 
+var poolFaultStatuses = []int{500, 204, 404, 304, 503, 203, 301, 205, 403, 202}
+
 func (srv *poolServer) RoundTrip(req *http.Request) (*http.Response, error) {
 	srv.mu.Lock()
 	idx := srv.n
@@ -314,7 +316,9 @@ func (srv *poolServer) RoundTrip(req *http.Request) (*http.Response, error) {
 	if idx == s.fidx {
 		switch s.fault {
 		case "status":
-			return mk(500, io.NopCloser(bytes.NewReader(nil)), 0), nil
+			// "status != 200": not only 4xx/5xx. 204/205/304 and a 3xx without Location reach the caller as they are.
+			code := poolFaultStatuses[idx%len(poolFaultStatuses)]
+			return mk(code, io.NopCloser(bytes.NewReader(nil)), 0), nil
 		case "transport":
 			return nil, errPoolTransport
 		case "stall":
